@@ -497,6 +497,27 @@ class CompleteStageHandler(
                                     execution_id=execution.id,
                                 )
                             )
+
+                        if (
+                            downstream_stages
+                            and phase is None
+                            and stage.start_time is not None
+                            and all(
+                                d.status.is_complete and d.end_time is not None and d.end_time <= stage.start_time
+                                for d in downstream_stages
+                            )
+                        ):
+                            # Every downstream stage had finished before this run of
+                            # the stage began: it was restarted (RestartStage brings a
+                            # finished execution back to RUNNING). The StartStage
+                            # messages above are ignored by completed stages, so
+                            # nobody else would ever finish the workflow again.
+                            txn.push_message(
+                                CompleteWorkflow(
+                                    execution_type=execution.type.value,
+                                    execution_id=execution.id,
+                                )
+                            )
                 else:
                     # Failure - atomic: store stage + cancel + complete
                     with self.repository.transaction(self.queue) as txn:
